@@ -1,5 +1,6 @@
 import VlsModel.Model.Onchain
 import VlsModel.Drv.Common
+import VlsModel.Drv.Wallet
 import VlsModel.Drv.Velocity
 /-
 Line-protocol driver for the on-chain spend check (property C08).
@@ -58,8 +59,19 @@ def chan? (s : String) : Option (Option ChanFacts) :=
     | _, _, _, _, _ => none
   | _ => none
 
+/-- `V:@style~path~allow~desc:chan`: the output as a script descriptor; the three wallet facts are computed by the
+    wallet model (`Onchain.outOfScript`) -/
+def outOfDesc? (v w ch : String) : Option Out :=
+  match (String.ofList (w.toList.drop 1)).splitOn "~" with
+  | [st, p, al, d] =>
+    match nat? v, Wallet.style? st, Wallet.path? p, Wallet.mapM? Wallet.allowable? (Wallet.splitList al ","), Wallet.script? d, chan? ch with
+    | some v, some st, some p, some al, some d, some ch => some (outOfScript st al v p d ch)
+    | _, _, _, _, _, _ => none
+  | _ => none
+
 def out? (s : String) : Option Out :=
   match s.splitOn ":" with
+  | [v, w, ch] => if w.toList.head? == some '@' then outOfDesc? v w ch else none
   | [v, pl, cs, sa, xp, ch] =>
     let cs? : Option (Option Bool) := match cs with
       | "t" => some (some true) | "f" => some (some false) | "e" => some none | _ => none
